@@ -1043,6 +1043,44 @@ func ruleWaitRemoveReturn(c *Ctx, r *Reporter) {
 		}
 	}
 	r.check(okBuild, name+"|cases built from the set on this call", c.posStr(fn.Pos()), "the select cases are filled by ranging ws.chans on a path that dominates every reflect.Select", "the select cases are not rebuilt from ws.chans on every call before selecting: members added since (Add/Merge) are not waited on, or stale members are")
+	// (6) every member of the set gets a select case: the slice is cut to 1+len(ws.chans), so an
+	// iteration of the fill loop that stores nothing leaves a stale or zero case behind
+	filled := false
+	pos := fn.Pos()
+	if rng != nil {
+		var hdr *ssa.BasicBlock
+		for _, ref := range *rng.Referrers() {
+			if nx, ok := ref.(*ssa.Next); ok {
+				hdr = nx.Block()
+			}
+		}
+		if hdr != nil {
+			loop := naturalLoop(hdr)
+			var fill *ssa.Store
+			for _, ia := range allInstrs(fn) {
+				st, ok := ia.In.(*ssa.Store)
+				if !ok || !loop[st.Block()] {
+					continue
+				}
+				if ix, ok := st.Addr.(*ssa.IndexAddr); ok && namedTypeName(st.Val.Type()) == "SelectCase" {
+					if _, isConst := ix.Index.(*ssa.Const); !isConst {
+						fill = st
+					}
+				}
+			}
+			if fill != nil {
+				pos = fill.Pos()
+				filled = true
+				for _, p := range hdr.Preds {
+					if loop[p] && p != hdr && !fill.Block().Dominates(p) {
+						filled = false
+					}
+				}
+			}
+		}
+	}
+	r.check(filled, name+"|every member gets a select case", c.posStr(pos), "each iteration over ws.chans stores one case (no member is skipped)", "the fill loop can skip a member (continue) while the case slice is still cut to 1+len(ws.chans): the uncovered slot holds a stale case of an earlier Wait (a channel that is no longer a member is returned) or a zero case (reflect.Select panics)")
+
 }
 
 func ruleEncNormal(c *Ctx, r *Reporter) {
